@@ -225,6 +225,16 @@ def _layer_specs():
                                   input_max=[1.0, 2.0, None], use_bias=False, normalization_order=1), [2, 3], False),
       ('Linear-rdom', lambda: L.Linear(num_input_dims=2, monotonicities=[-1, -1], range_dominances=[(0, 1)], input_min=[0.0, 0.0], input_max=[2.0, 1.0]), [2], False),
       ('KFL', lambda: L.KroneckerFactoredLattice(lattice_sizes=3, units=1, num_terms=2, monotonicities=[1, 0], output_min=0.0, output_max=1.0, clip_inputs=False), [2], False),
+      # every boolean / enum flag away from its default in at least one layer, flags of one layer set differently from each other
+      ('RTL-noclip', lambda: L.RTL(num_lattices=2, lattice_rank=2, lattice_size=2, output_min=0.0, output_max=1.0, clip_inputs=False, random_seed=3,
+                                   kernel_initializer='linear_initializer'), [3], False),
+      ('RTL-nostep', lambda: L.RTL(num_lattices=2, lattice_rank=2, lattice_size=2, monotonic_at_every_step=False, clip_inputs=True, random_seed=5,
+                                   avoid_intragroup_interaction=False, average_outputs=True, kernel_initializer='linear_initializer'), [3], False),
+      ('Lattice-nostep-clip', lambda: L.Lattice(lattice_sizes=[2, 2], monotonicities=[1, 0], monotonic_at_every_step=False, clip_inputs=True,
+                                                kernel_initializer='zeros'), [2], False),
+      ('KFL-clip', lambda: L.KroneckerFactoredLattice(lattice_sizes=2, units=2, num_terms=1, monotonicities=[0, 1], clip_inputs=True), [2, 2], False),
+      ('PWLCalibration-split', lambda: L.PWLCalibration(input_keypoints=[0.0, 2.0], units=2, split_outputs=True, clamp_max=True, output_max=1.0,
+                                                        monotonicity=1, impute_missing=False), [2], False),
       ('CDF', lambda: L.CDF(num_keypoints=2, units=2, activation='sigmoid', reduction='none', input_scaling_init=2.0, input_scaling_type='learned_shared',
                             sparsity_factor=2), [2], False),
   ]
@@ -239,6 +249,72 @@ def _match_vars(case, label, a, b):
   return ok
 
 
+def _json_default(o):
+  if hasattr(o, 'get_config'):
+    return dict(class_name=type(o).__name__, config=o.get_config())
+  if isinstance(o, (np.integer, np.floating)):
+    return o.item()
+  if isinstance(o, np.ndarray):
+    return o.tolist()
+  raise TypeError('not JSON serializable: %r' % (o,))
+
+
+def _functional_layer(case, label, thunk, shp, is_int, mode, co):
+  import tensorflow as tf
+  from tensorflow_lattice.python.lattice_layer import keras
+  tag = label if mode == 'config' else '%s,via-json' % label
+  a = thunk()
+  try:
+    with keras.utils.custom_object_scope(co):
+      cfg = a.get_config()
+      if mode == 'json':
+        # what a saved model file holds: the config after a round trip through JSON (tuples become lists)
+        cfg = json.loads(json.dumps(cfg, default=_json_default))
+      b = type(a).from_config(cfg)
+  except Exception as e:  # pylint: disable=broad-except
+    case.record('layer-rebuilds-from-config[%s]' % tag, 'sat', kind='structural', witness={}, replay=dict(fn='layer', label=label, mode=mode),
+                sig=dict(query='rebuild', label=label), note='%s: %s' % (type(e).__name__, str(e)[:120]))
+    return
+  case.functions.append(core.fn_id(type(a).get_config))
+  a.build(tf.TensorShape([None] + shp))
+  b.build(tf.TensorShape([None] + shp))
+  if not _match_vars(case, tag, a, b):
+    return
+  dt = tf.int32 if is_int else tf.float32
+  ta = Traced(lambda x: _flat(a(x), tf), [tf.TensorSpec([1] + shp, dt)], name=label)
+  tb = Traced(lambda x: _flat(b(x), tf), [tf.TensorSpec([1] + shp, dt)], name=label + "'")
+  xs = [sym.symbolic('x', tuple([1] + shp))] if not is_int else [sym.obj(np.array(c).reshape([1] + shp)) for c in itertools.product(range(3), repeat=int(np.prod(shp)))][::4]
+  for xi, x in enumerate(xs):
+    sym.new_ctx()
+    vva, vvb, wit = {}, {}, ({} if is_int else dict(x=x))
+    for i, (u, v) in enumerate(zip(a.weights, b.weights)):
+      s = sym.symbolic('v%d' % i, tuple(u.shape))
+      vva[u.ref()] = s
+      vvb[v.ref()] = s
+      wit['v%d' % i] = s
+    if label == 'Lattice-simplex' and not is_int:
+      sym.ctx().case_assumptions = [x[0, 0] > x[0, 1], x[0, 0] < 1, x[0, 1] > 0]
+    (oa,) = ta.sym_run(x, var_values=vva)
+    (ob,) = tb.sym_run(x, var_values=vvb)
+    pairs = list(zip(np.asarray(oa, dtype=object).reshape(-1), np.asarray(ob, dtype=object).reshape(-1)))
+    # weight constraints of original and rebuilt layer agree on arbitrary tensors
+    for i, (u, v) in enumerate(zip(a.weights, b.weights)):
+      if (u.constraint is None) != (v.constraint is None):
+        case.record('rebuilt-layer-has-same-constraint[%s,%s]' % (tag, u.name), 'sat', kind='structural', witness={}, replay=None,
+                    sig=dict(query='constraint', label=label))
+      elif u.constraint is not None and xi == 0:
+        tu = Traced(_apply(u.constraint), [tf.TensorSpec(list(u.shape), tf.float32)])
+        tv = Traced(_apply(v.constraint), [tf.TensorSpec(list(v.shape), tf.float32)])
+        W = sym.symbolic('w%d' % i, tuple(u.shape))
+        (cu,) = tu.sym_run(W, var_values=vva)
+        (cv,) = tv.sym_run(W, var_values=vvb)
+        pairs += list(zip(np.asarray(cu, dtype=object).reshape(-1), np.asarray(cv, dtype=object).reshape(-1)))
+        wit['w%d' % i] = W
+    case.meta.setdefault('ops', {}).update(ta.ops_seen)
+    case.identity('rebuilt-layer-computes-identical-outputs[%s,%d]' % (tag, xi), pairs, witness=wit, timeout=90,
+                  sig=dict(query='functional', label=label), replay=dict(fn='layer', label=label, mode=mode), required=True)
+
+
 def case_functional_layers(**p):
   import tensorflow as tf
   import tensorflow_lattice as tfl
@@ -246,52 +322,13 @@ def case_functional_layers(**p):
   case = Case(PROP, p['name'], {})
   co = tfl.premade.get_custom_objects()
   for label, thunk, shp, is_int in _layer_specs():
-    a = thunk()
-    try:
-      with keras.utils.custom_object_scope(co):
-        b = type(a).from_config(a.get_config())
-    except Exception as e:  # pylint: disable=broad-except
-      case.record('layer-rebuilds-from-config[%s]' % label, 'sat', kind='structural', witness={}, replay=dict(fn='layer', label=label),
-                  sig=dict(query='rebuild', label=label), note='%s: %s' % (type(e).__name__, str(e)[:120]))
-      continue
-    case.functions.append(core.fn_id(type(a).get_config))
-    a.build(tf.TensorShape([None] + shp))
-    b.build(tf.TensorShape([None] + shp))
-    if not _match_vars(case, label, a, b):
-      continue
-    dt = tf.int32 if is_int else tf.float32
-    ta = Traced(lambda x: _flat(a(x), tf), [tf.TensorSpec([1] + shp, dt)], name=label)
-    tb = Traced(lambda x: _flat(b(x), tf), [tf.TensorSpec([1] + shp, dt)], name=label + "'")
-    xs = [sym.symbolic('x', tuple([1] + shp))] if not is_int else [sym.obj(np.array(c).reshape([1] + shp)) for c in itertools.product(range(3), repeat=int(np.prod(shp)))][::4]
-    for xi, x in enumerate(xs):
-      sym.new_ctx()
-      vva, vvb, wit = {}, {}, ({} if is_int else dict(x=x))
-      for i, (u, v) in enumerate(zip(a.weights, b.weights)):
-        s = sym.symbolic('v%d' % i, tuple(u.shape))
-        vva[u.ref()] = s
-        vvb[v.ref()] = s
-        wit['v%d' % i] = s
-      if label == 'Lattice-simplex' and not is_int:
-        sym.ctx().case_assumptions = [x[0, 0] > x[0, 1], x[0, 0] < 1, x[0, 1] > 0]
-      (oa,) = ta.sym_run(x, var_values=vva)
-      (ob,) = tb.sym_run(x, var_values=vvb)
-      pairs = list(zip(np.asarray(oa, dtype=object).reshape(-1), np.asarray(ob, dtype=object).reshape(-1)))
-      # weight constraints of original and rebuilt layer agree on arbitrary tensors
-      for i, (u, v) in enumerate(zip(a.weights, b.weights)):
-        if (u.constraint is None) != (v.constraint is None):
-          case.record('rebuilt-layer-has-same-constraint[%s,%s]' % (label, u.name), 'sat', kind='structural', witness={}, replay=None,
-                      sig=dict(query='constraint', label=label))
-        elif u.constraint is not None and xi == 0:
-          tu = Traced(_apply(u.constraint), [tf.TensorSpec(list(u.shape), tf.float32)])
-          tv = Traced(_apply(v.constraint), [tf.TensorSpec(list(v.shape), tf.float32)])
-          W = sym.symbolic('w%d' % i, tuple(u.shape))
-          (cu,) = tu.sym_run(W, var_values=vva)
-          (cv,) = tv.sym_run(W, var_values=vvb)
-          pairs += list(zip(np.asarray(cu, dtype=object).reshape(-1), np.asarray(cv, dtype=object).reshape(-1)))
-          wit['w%d' % i] = W
-      case.meta.setdefault('ops', {}).update(ta.ops_seen)
-      case.identity('rebuilt-layer-computes-identical-outputs[%s,%d]' % (label, xi), pairs, witness=wit, timeout=90,
-                    sig=dict(query='functional', label=label), replay=dict(fn='layer', label=label), required=True)
+    for mode in ('config', 'json'):
+      try:
+        _functional_layer(case, label, thunk, shp, is_int, mode, co)
+      except Exception as e:  # pylint: disable=broad-except
+        case.record('rebuilt-layer-builds-projects-and-evaluates[%s,%s]' % (label, mode), 'sat', kind='structural', witness={},
+                    replay=dict(fn='layer', label=label, mode=mode), sig=dict(query='rebuild-works', label=label, mode=mode),
+                    note='%s: %s' % (type(e).__name__, str(e)[:160]))
   return case
 
 
@@ -547,12 +584,22 @@ def replay(r):
     a = thunk()
     try:
       with keras.utils.custom_object_scope(co):
-        b = type(a).from_config(a.get_config())
+        cfg = a.get_config()
+        if rp.get('mode') == 'json':
+          cfg = json.loads(json.dumps(cfg, default=_json_default))
+        b = type(a).from_config(cfg)
+      a.build(tf.TensorShape([None] + shp))
+      b.build(tf.TensorShape([None] + shp))
+      # a rebuilt layer must at least build, project its weights and evaluate
+      for v in b.weights:
+        if v.constraint is not None:
+          v.constraint(v)
+      b(tf.zeros([1] + shp, dtype=tf.int32 if is_int else tf.float32))
     except Exception as e:  # pylint: disable=broad-except
       return dict(reproduced=True, detail='%s: %s' % (type(e).__name__, str(e)[:200]))
-    a.build(tf.TensorShape([None] + shp))
-    b.build(tf.TensorShape([None] + shp))
-    w = r['witness']
+    w = r.get('witness') or {}
+    if not w:
+      return dict(reproduced=False, detail='rebuilt layer builds, projects and evaluates')
     for i, (u, v) in enumerate(zip(a.weights, b.weights)):
       val = core.witness_np(w['v%d' % i]).astype(np.float32)
       u.assign(val)
